@@ -88,10 +88,44 @@ def run_case(seed, tier, rec, st):
         if dialect_hist:
             wcfg["code_generation_options"] = "[ADD_DIALECT_SUPPORT]"
             fam.exec_src("class EmptyD(Dialect):\n    pass\n")
+        if fmt and rng.random() < 0.3:
+            # a parse-only (one-way) registration for a type the format keeps native, on a level ABOVE the format dialect:
+            # it says nothing about serialization, so the format dialect still decides (the tree keeps the native object)
+            srcname = {"bytes": "bytes", "bytearray": "bytearray", "datetime": "datetime.datetime", "date": "datetime.date",
+                       "time": "datetime.time", "uuid": "uuid.UUID"}
+            present = sorted(k for k in FORMAT_MIXINS[fmt][2] if any(n[0] == k for n in common.deep_nodes(fam, t)))
+            if present:
+                reg = "{" + ", ".join(f"{srcname[k]}: {{'deserialize': _oneway_parse}}" for k in present if rng.random() < 0.8 or k == present[0]) + "}"
+                fam.exec_src("def _oneway_parse(x):\n    return x\n")
+                lvl = rng.choice(["config", "config-dialect"] + (["call-dialect"] if dialect_hist else []))
+                if lvl == "config":
+                    wcfg["serialization_strategy"] = reg
+                elif lvl == "config-dialect":
+                    fam.exec_src(f"class OneWayD(Dialect):\n    serialization_strategy = {reg}\n")
+                    wcfg["dialect"] = "OneWayD"
+                else:
+                    fam.exec_src(f"class EmptyD(Dialect):\n    serialization_strategy = {reg}\n")
+                rec.count(f"oneway_registration:{lvl}")
         fam.add({"k": "dc", "name": wname, "bases": [], "mixin": wmixin,
                  "fields": [{"n": "x", "t": t}], "config": wcfg}, tg.value_maker)
         W = fam.get(wname)
+        # codec objects of several formats for the SAME classes, created in a random order around the basic encoder: each
+        # exposes its pre-dump tree through an identity post_encoder_func and must keep its own natives (and only those)
+        codec_trees, after = [], []
+        if rng.random() < 0.35:
+            from mashumaro.codecs.json import JSONEncoder
+            from mashumaro.codecs.yaml import YAMLEncoder
+            from mashumaro.codecs.msgpack import MessagePackEncoder
+            kinds = [("json-codec-tree", JSONEncoder, ()), ("yaml-codec-tree", YAMLEncoder, ()), ("msgpack-codec-tree", MessagePackEncoder, MSGPACK_NATIVES)]
+            rng.shuffle(kinds)
+            kinds = kinds[:rng.randint(1, 3)]
+            before = [k for k in kinds if rng.random() < 0.5]
+            after = [k for k in kinds if k not in before]
+            for nm, cls_, nat in before:
+                codec_trees.append((nm, cls_(W, post_encoder_func=ident), nat))
         wenc = BasicEncoder(W)
+        for nm, cls_, nat in after:
+            codec_trees.append((nm, cls_(W, post_encoder_func=ident), nat))
         vg = Gen(fam, rng)
         nvals = 8 if tier == "quick" else 16
         tt = common.eval_type(fam, t)
@@ -105,6 +139,8 @@ def run_case(seed, tier, rec, st):
             obs.append(("wrapper-codec", lambda: wenc.encode(w), ("dc", wname), w, Ctx()))
             if wmixin:
                 obs.append(("wrapper-to_dict", lambda: w.to_dict(), ("dc", wname), w, Ctx()))
+            for nm, ce, nat in codec_trees:
+                obs.append((nm, (lambda ce=ce: ce.encode(w)), ("dc", wname), w, Ctx(natives=nat)))
             if fmt:
                 _, meth, natives, drop = FORMAT_MIXINS[fmt]
                 obs.append((f"{fmt}-tree", lambda: getattr(w, meth)(encoder=ident), ("dc", wname), w,
